@@ -35,6 +35,10 @@ def main():
     try:
         build = common.lean_build(common.prop_modules(a.prop))
         proof_ok = chk.lean(build)
+        if a.tier == 'thorough' and build.built:
+            ok, out = common.leanchecker(build.built)
+            chk.obligations.append(('leanchecker ' + ' '.join(build.built), ok, [] if ok else [out[-300:]]))
+            proof_ok = proof_ok and ok
         if not build.ok:
             print(build.log[-3000:])
         mod.run(chk, a.tier, proof_ok)
